@@ -79,12 +79,6 @@ theorem gw_forwarded (env : Env) (s : State) (r : Request) (f : Forwarded) (h : 
 
 /-! ### well-formed clusters: the endpoint map is C03's image of the cluster's own server list -/
 
-/-- the endpoint map of a `ClusterInfo` is in C03's simulation with a history whose last Sync wrote the cluster's
-    configuration (server list and subsets) -/
-def ClusterWF (cl : Cluster) : Prop :=
-  ∃ a : KG.Spec.Endpoints.Abs, KG.Lemmas.Endpoints.Sim cl.ep a ∧ a.servers = cl.cfg.servers ∧
-    a.policies = cl.cfg.policies.map (·.upstreamSubset)
-
 /-- in a well-formed cluster the forwarded request went to a CURRENT SERVER of the cluster the host resolves to, one that no
     entry of the spec marks disabled, whose last health report since it entered the list was healthy, and that is a member
     of the subset of the first matching policy when that policy has one (C03 through the composition) -/
@@ -654,6 +648,337 @@ theorem gw_own_cluster_oracle (env env' : Env) (s : State) (r : Request)
   | notReached => rfl
   | noPolicy b => rfl
   | panic e => rfl
+
+/-! ## C05 through the composition: no slot is ever leaked; C14: the cursor law -/
+
+/-- **no leak, whatever the way out**: after ONE COMPLETE request — forwarded, refused by any filter, unmatched, rate
+    limited, left without endpoint, refused by the transport — the limiters are again related to a bookkeeping that has, for
+    EVERY cluster and schema, exactly the in-flight requests it had before. So the demand of C05's judge for the next request
+    (`Spec.LocalLimiter.demand`: admitted iff fewer than M unfinished) is what it was: a request costs a slot only while it
+    is in flight. -/
+theorem gw_no_leak (env : Env) (s : State) (σ : KG.Spec.LocalLimiter.SState) (r : Request)
+    (hrel : KG.Lemmas.LocalLimiter.Rel s.lim σ) :
+    ∃ σ', KG.Lemmas.LocalLimiter.Rel (serveRequest env s r).1.lim σ' ∧ σ'.entries = σ.entries ∧
+      ∀ c n, KG.Spec.LocalLimiter.demand σ' c n = KG.Spec.LocalLimiter.demand σ c n := by
+  have hdem : ∀ σ' : KG.Spec.LocalLimiter.SState, σ'.entries = σ.entries →
+      ∀ c n, KG.Spec.LocalLimiter.demand σ' c n = KG.Spec.LocalLimiter.demand σ c n := by
+    intro σ' he c n; unfold KG.Spec.LocalLimiter.demand; rw [he]
+  rcases serveRequest_state env s r with h | ⟨x, hx, ⟨h, ha⟩ | ⟨h, ha⟩⟩
+  · rw [h]; exact ⟨σ, hrel, rfl, fun _ _ => rfl⟩
+  · -- refused: nothing was taken
+    obtain ⟨_, _, hacq, _⟩ := dispatch_done hx
+    obtain ⟨hacq', _, _⟩ := tryAcquire_ok hacq
+    obtain ⟨w', b, ha', _, hrel'⟩ := KG.Lemmas.LocalLimiter.acquire_step hrel x.b.cl.cfg.name (schemaNameOf x.b.cl x.pk)
+      (bucketAnswer s.lim s.buckets x.b.cl.cfg.name (schemaNameOf x.b.cl x.pk) r.now).1
+    rw [hacq'] at ha'
+    injection ha' with ha'
+    injection ha' with e1 e2
+    rw [h]
+    have hent : (KG.Spec.LocalLimiter.specAcquire σ x.b.cl.cfg.name (schemaNameOf x.b.cl x.pk) b).entries = σ.entries := by
+      rw [← e2, ha]
+      unfold KG.Spec.LocalLimiter.specAcquire
+      simp
+    exact ⟨_, by show KG.Lemmas.LocalLimiter.Rel x.acq.lim _; rw [e1]; exact hrel', hent, hdem _ hent⟩
+  · -- taken and given back
+    obtain ⟨_, _, hacq, _⟩ := dispatch_done hx
+    obtain ⟨hacq', hh, _⟩ := tryAcquire_ok hacq
+    obtain ⟨w', b, ha', _, hrel'⟩ := KG.Lemmas.LocalLimiter.acquire_step hrel x.b.cl.cfg.name (schemaNameOf x.b.cl x.pk)
+      (bucketAnswer s.lim s.buckets x.b.cl.cfg.name (schemaNameOf x.b.cl x.pk) r.now).1
+    rw [hacq'] at ha'
+    injection ha' with ha'
+    injection ha' with e1 e2
+    rw [h]
+    have hrel2 := KG.Lemmas.LocalLimiter.release_step hrel' x.acq.handle
+    rw [← e2, ha] at hrel2
+    have hlen : x.acq.handle = σ.reqs.length := by rw [hh, hrel.core.reqsLen]
+    have hent := spec_roundtrip σ x.b.cl.cfg.name (schemaNameOf x.b.cl x.pk) (by
+      intro e he hmem
+      -- an in-flight index is the index of a request that exists
+      have hdom := hrel.core.dom x.b.cl.cfg.name (schemaNameOf x.b.cl x.pk)
+      rw [he] at hdom
+      cases hc : s.lim.cache x.b.cl.cfg.name (schemaNameOf x.b.cl x.pk) with
+      | none => rw [hc] at hdom; simp at hdom
+      | some cache =>
+        have := (hrel.core.infl _ _ cache e σ.reqs.length hc he).1 hmem
+        have hlt := KG.Lemmas.LocalLimiter.holdsL_lt this
+        rw [hrel.core.reqsLen] at hlt
+        exact Nat.lt_irrefl _ hlt)
+    rw [← hlen] at hent
+    refine ⟨_, ?_, hent, hdem _ hent⟩
+    show KG.Lemmas.LocalLimiter.Rel (Model.LocalLimiter.release x.acq.lim x.acq.handle).1 _
+    rw [e1]
+    exact hrel2
+
+/-- **C14 through the composition**: a forwarded request whose policy's upstream list holds two or more ready endpoints
+    took `ready[c mod k]` where `c` is the successor of the cursor of ITS ordered ready list in ITS cluster; afterwards that
+    cursor is `c` and every other cursor of the cluster (and, `gw_frame_cursors`, of every other cluster) is what it was -/
+theorem gw_cursor_law (env : Env) (s : State) (r : Request) (f : Forwarded) (h : (arrive env s r).2 = .forwarded f)
+    (cl : Cluster) (hcl : s.clusters[f.cluster]? = some cl) (pol : Model.Match.PolicyCfg)
+    (hpol : cl.cfg.policies[f.policy]? = some pol)
+    (h2 : 2 ≤ (Model.Endpoints.readyList cl.ep.eps
+      (if pol.upstreamSubset = [] then allEndpoints cl r else pol.upstreamSubset)).length) :
+    ∃ cl', (arrive env s r).1.clusters[f.cluster]? = some cl' ∧ cl'.ep.eps = cl.ep.eps ∧
+      Model.Endpoints.indexResult
+        (Model.Endpoints.readyList cl.ep.eps (if pol.upstreamSubset = [] then allEndpoints cl r else pol.upstreamSubset))
+        (Model.Endpoints.toU64 (Model.Endpoints.lbGet cl.ep.lb
+          ((Model.Endpoints.readyList cl.ep.eps (if pol.upstreamSubset = [] then allEndpoints cl r else pol.upstreamSubset)).map
+            Model.Endpoints.EP.id) + 1)) = .picked f.endpoint.1 f.endpoint.2 ∧
+      Model.Endpoints.lbGet cl'.ep.lb
+          ((Model.Endpoints.readyList cl.ep.eps (if pol.upstreamSubset = [] then allEndpoints cl r else pol.upstreamSubset)).map
+            Model.Endpoints.EP.id) =
+        Model.Endpoints.toU64 (Model.Endpoints.lbGet cl.ep.lb
+          ((Model.Endpoints.readyList cl.ep.eps (if pol.upstreamSubset = [] then allEndpoints cl r else pol.upstreamSubset)).map
+            Model.Endpoints.EP.id) + 1) ∧
+      ∀ κ, κ ≠ (Model.Endpoints.readyList cl.ep.eps (if pol.upstreamSubset = [] then allEndpoints cl r else pol.upstreamSubset)).map
+            Model.Endpoints.EP.id → Model.Endpoints.lbGet cl'.ep.lb κ = Model.Endpoints.lbGet cl.ep.lb κ := by
+  obtain ⟨ci, cl0, ri, u, pol0, w', e, lb', _, hcl0, _, _, _, _, _, hpol0, _, _, _, _, _, hpopeq, _⟩ := gw_forwarded env s r f h
+  rw [hcl] at hcl0; cases hcl0
+  rw [hpol] at hpol0; cases hpol0
+  obtain ⟨up, x, n, g, recv, ctx, _, _, hx, hserve, hpop, _, hfeq, hst⟩ := arrive_forwarded h
+  obtain ⟨hb, _, _, hpopx⟩ := dispatch_done hx
+  obtain ⟨_, _, hres, _⟩ := bound_some hb
+  obtain ⟨_, hclx⟩ := resolve_some hres
+  have hp : f.cluster = x.b.p := by rw [hfeq]
+  rw [hp] at hcl
+  rw [hcl] at hclx
+  injection hclx with hclx
+  obtain ⟨h1, h2', h3⟩ := KG.Props.C14.c14_cursor_law cl.ep.eps cl.ep.lb _ h2
+  rw [hpopeq] at h1 h2' h3
+  refine ⟨{ cl with ep := { cl.ep with lb := lb' } }, ?_, rfl, ?_, h2', h3⟩
+  · rw [hst, stateAfterDispatch_clusters, hp, setCursor_get]
+    simp only [if_true, hcl, Option.map_some]
+    have hlb : x.pop.2 = lb' := by
+      have hadm : x.acq.admitted = true := by
+        have := ((KG.Props.C04.c04_forward_iff _).1 hserve).2.2.2.2.2.2.2.1
+        rw [scenario_acquire, hx] at this
+        exact this
+      simp only [hadm, if_true] at hpopx
+      rw [hpopx, ← hclx]
+      obtain ⟨polx, hpolx, _, _, _, hups, _⟩ := KG.Props.C01.c01_match_attributes_some _ _ _ _ _ (dispatch_done hx).2.1
+      have hfp : f.policy = x.pk.policy := by rw [hfeq]
+      rw [hfp, hclx] at hpol
+      rw [hpolx] at hpol
+      injection hpol with hpol
+      have hups' : x.pk.upstreams = (if polx.upstreamSubset = [] then allEndpoints x.b.cl r else polx.upstreamSubset) := hups
+      rw [hups', hpol, ← hclx, hpopeq]
+    rw [hlb]
+  · rw [← h1]
+
+/-- **C05's isolation through the composition**: ONE COMPLETE request — which touches at most the limiter of the schema of
+    the first matching policy of the cluster it is bound to — does not change the answer a request under ANY OTHER
+    (cluster, schema) pair would get: exhausting one tenant's or one policy's limit never causes a rejection elsewhere -/
+theorem gw_isolation (env : Env) (s : State) (σ : KG.Spec.LocalLimiter.SState) (r : Request)
+    (hrel : KG.Lemmas.LocalLimiter.Rel s.lim σ) (c n : Str) (tb : Bool)
+    (hother : ∀ x, dispatch env s r = .done x → ¬ (x.b.cl.cfg.name = c ∧ schemaNameOf x.b.cl x.pk = n)) :
+    Model.LocalLimiter.answer (serveRequest env s r).1.lim c n tb = Model.LocalLimiter.answer s.lim c n tb := by
+  rcases serveRequest_state env s r with h | ⟨x, hx, hcase⟩
+  · rw [h]
+  · obtain ⟨_, _, hacq, _⟩ := dispatch_done hx
+    obtain ⟨hacq', hh, _⟩ := tryAcquire_ok hacq
+    have hno := hother x hx
+    -- the arrival
+    have hstep : (Model.LocalLimiter.step s.lim (.acquire x.b.cl.cfg.name (schemaNameOf x.b.cl x.pk)
+        (bucketAnswer s.lim s.buckets x.b.cl.cfg.name (schemaNameOf x.b.cl x.pk) r.now).1)).1 = x.acq.lim := by
+      simp only [Model.LocalLimiter.step, hacq']
+    have h1 := KG.Lemmas.LocalLimiter.isolation_step hrel (.acquire x.b.cl.cfg.name (schemaNameOf x.b.cl x.pk)
+        (bucketAnswer s.lim s.buckets x.b.cl.cfg.name (schemaNameOf x.b.cl x.pk) r.now).1) c n tb
+        (by simpa [Model.LocalLimiter.addresses] using hno)
+    rw [hstep] at h1
+    rcases hcase with ⟨h, _⟩ | ⟨h, _⟩
+    · rw [h]; exact h1
+    · -- … and the completion
+      rw [h]
+      obtain ⟨w', b, ha', _, hrel'⟩ := KG.Lemmas.LocalLimiter.acquire_step hrel x.b.cl.cfg.name (schemaNameOf x.b.cl x.pk)
+        (bucketAnswer s.lim s.buckets x.b.cl.cfg.name (schemaNameOf x.b.cl x.pk) r.now).1
+      rw [hacq'] at ha'
+      injection ha' with ha'
+      injection ha' with e1 e2
+      rw [← e1] at hrel'
+      obtain ⟨obj, hreqs⟩ := acquire_reqs hacq'
+      have h2 := KG.Lemmas.LocalLimiter.isolation_step hrel' (.release x.acq.handle) c n tb (by
+        simp only [Model.LocalLimiter.addresses, hreqs, hh]
+        simp only [List.getElem?_concat_length]
+        exact hno)
+      show Model.LocalLimiter.answer (Model.LocalLimiter.release x.acq.lim x.acq.handle).1 c n tb = _
+      rw [← h1]
+      exact h2
+
+/-- **C06 through the composition**: the token buckets after a request are the buckets before, except — when the dispatcher
+    called `TryAcquire` on a token-bucket limiter object `id` — that one bucket, which made exactly ONE step
+    `Bucket.tryAcquire` at the request's clock reading (from a fresh bucket if the object was resized since its last use).
+    So the calls a bucket sees along any sequence are exactly the requests routed to its limiter object, in order: C06's
+    bounds (`c06_history`, `c06_upper_window`) apply to each bucket's sub-sequence. -/
+theorem gw_frame_buckets (env : Env) (s : State) (r : Request) :
+    (arrive env s r).1.buckets = s.buckets ∨
+    ∃ x id q b, dispatch env s r = .done x ∧
+      bucketFor s.lim x.b.cl.cfg.name (schemaNameOf x.b.cl x.pk) = some (id, q, b) ∧
+      ∀ id', (arrive env s r).1.buckets.lookup id' =
+        if id' = id then some ((bucketOf s.buckets id q b).tryAcquire arith r.now).2 else s.buckets.lookup id' := by
+  rcases arrive_state env s r with h | ⟨x, hx, h⟩
+  · left; rw [h]
+  · have hb : (arrive env s r).1.buckets = x.acq.buckets := by
+      rcases h with h | h <;> rw [h] <;> rfl
+    obtain ⟨_, _, hacq, _⟩ := dispatch_done hx
+    obtain ⟨_, _, hbk⟩ := tryAcquire_ok hacq
+    rw [hbk] at hb
+    unfold bucketAnswer at hb
+    cases hf : bucketFor s.lim x.b.cl.cfg.name (schemaNameOf x.b.cl x.pk) with
+    | none => left; rw [hb, hf]
+    | some t =>
+      obtain ⟨id, q, b⟩ := t
+      right
+      refine ⟨x, id, q, b, hx, hf, ?_⟩
+      intro id'
+      rw [hb, hf]
+      exact lookup_setBucket _ _ _ _
+
+/-! ## the end-to-end judge holds of the model
+
+`KG.Spec.Gateway.judge` is what the harness applies to the REAL chain's observations. It is written with the per-area
+specifications (C02 `expectedFor`/`judge`, C01 `firstMatchSpec`, C05 `demand`, C03 eligibility in the cluster's own spec,
+C04 `table`); these theorems prove it of the composed model's own outputs, for every state whose limiters are related to
+the judge's bookkeeping `σ` and whose clusters are well-formed (both hold along every sequence on every installed
+configuration: `gw_run_inv`, `gw_run_wf`). -/
+
+/-- the property's own demand on Retry-After holds of every row of the table (constants ≥ 1) -/
+theorem table_retryAfter (sc : Model.Forward.Scenario) (a : Model.Forward.Answer) (h : KG.Spec.Forward.table sc = .terminated a) :
+    KG.Spec.Forward.retryAfterDemanded (KG.Spec.Forward.obsOfAnswer a)
+      (sc.requestInfoOK && !sc.hostIsIP && sc.clusterKnown && !sc.denyAll && sc.authOK
+        && (sc.imp == Model.Forward.Imp.none || sc.imp == Model.Forward.Imp.allowed) && sc.policyMatches && !sc.acquireOK)
+      sc.resource = true := by
+  have hr := KG.Props.C04.retryAfter_pos
+  have hu := KG.Props.C04.unavailableRetryAfter_pos
+  have hev : Gen.C04.rateLimitExemptResource = [101, 118, 101, 110, 116, 115] := by decide
+  unfold KG.Spec.Forward.table KG.Spec.Forward.tableDispatch at h
+  cases hri : sc.requestInfoOK <;> cases hip : sc.hostIsIP <;> cases hck : sc.clusterKnown <;> cases hda : sc.denyAll <;>
+    cases hau : sc.authOK <;> cases him : sc.imp <;> cases hpm : sc.policyMatches <;> cases haq : sc.acquireOK <;>
+    cases hpo : sc.popOK <;> simp [hri, hip, hck, hda, hau, him, hpm, haq, hpo] at h <;>
+    (subst h
+     simp [KG.Spec.Forward.retryAfterDemanded, KG.Spec.Forward.obsOfAnswer, hev]
+     try (first | omega | (split <;> simp_all <;> omega)))
+
+/-- **answered requests**: for every request the model answers itself (any row, an IP-literal host handed to the control
+    plane, the text/plain 500 of `WithRequestInfo`), the judge — the table on the SPECIFICATION's flags, well-formedness, the
+    Retry-After rule — accepts the model's output -/
+theorem gw_judge_answered (env : Env) (s : State) (σ : KG.Spec.LocalLimiter.SState) (r : Request)
+    (hrel : KG.Lemmas.LocalLimiter.Rel s.lim σ) (hwf : StateWF s)
+    (hp : Model.Identity.parse r.lines ≠ none) (hf : Model.Forward.forwardRequest r.toForward ≠ none)
+    (hnf : ∀ f, (arrive env s r).2 ≠ .forwarded f) (hnp : (arrive env s r).2 ≠ .proxyError)
+    (obs : KG.Spec.Gateway.Obs) (ho : KG.Spec.Gateway.obsOf r (arrive env s r).2 = some obs) :
+    KG.Spec.Gateway.judge env s σ r obs = [] := by
+  have hinv : Inv s := ⟨σ, hrel⟩
+  have hwf' : ∀ (p : Nat) (cl : Cluster), s.clusters[p]? = some cl → ClusterWF cl :=
+    fun p cl h => hwf cl (List.mem_of_getElem? h)
+  have ht := gw_decision_table env s r hinv hp hf
+  rw [← table_spec_eq hrel hwf' hp] at ht
+  cases hout : (arrive env s r).2 with
+  | forwarded f => exact absurd hout (hnf f)
+  | proxyError => exact absurd hout hnp
+  | badRequest => rw [hout] at ht; simp [kindOf] at ht
+  | panic e => rw [hout] at ht; simp [kindOf] at ht
+  | notProxied =>
+    rw [hout] at ht ho
+    simp only [kindOf, Option.some.injEq] at ht
+    simp only [KG.Spec.Gateway.obsOf, Option.some.injEq] at ho
+    subst ho
+    simp [KG.Spec.Gateway.judge, KG.Spec.Gateway.judgeAnswered, ← ht, KG.Spec.Gateway.cls]
+  | plainError c =>
+    rw [hout] at ht ho
+    simp only [kindOf, Option.some.injEq] at ht
+    simp only [KG.Spec.Gateway.obsOf, Option.some.injEq] at ho
+    subst ho
+    simp [KG.Spec.Gateway.judge, KG.Spec.Gateway.judgeAnswered, ← ht, KG.Spec.Gateway.cls, KG.Spec.Gateway.emptyTerm]
+  | terminated a =>
+    rw [hout] at ht ho
+    simp only [kindOf, Option.some.injEq] at ht
+    simp only [KG.Spec.Gateway.obsOf, Option.some.injEq] at ho
+    subst ho
+    have hra := table_retryAfter _ a ht.symm
+    obtain ⟨_, hwfa, hwo⟩ := gw_answered env s r a hout
+    have hrow : KG.Spec.Forward.matchesRow a (KG.Spec.Forward.obsOfAnswer a) = true := by
+      simp [KG.Spec.Forward.matchesRow, KG.Spec.Forward.obsOfAnswer]
+    simp only [KG.Spec.Gateway.judge, if_true, KG.Spec.Gateway.judgeAnswered, ← ht, hwo, hrow, hra, KG.Spec.Gateway.cls,
+      List.append_nil]
+
+/-- **forwarded requests**: for every request the model hands to an upstream, every stage class of the judge stays
+    silent on the model's output: the host resolves and is proxied, the identity is the expected one and the identity-bearing
+    fields are exactly the gateway's (C02's judge; `valuesCarried`: the identity has no white space at the ends of its values —
+    C02's known finding otherwise), the policy is `firstMatchSpec`'s, the endpoint is in that policy's upstream list, a
+    current server, eligible, and the schema admitted by C05's `demand` / C06's bucket. (The fidelity classes are C04's
+    Boolean verdicts: `gw_forwarded_fidelity` proves them per key.) -/
+theorem gw_judge_stages (env : Env) (s : State) (σ : KG.Spec.LocalLimiter.SState) (r : Request) (f : Forwarded)
+    (hrel : KG.Lemmas.LocalLimiter.Rel s.lim σ) (hwf : StateWF s) (h : (arrive env s r).2 = .forwarded f)
+    (hc : KG.Spec.Identity.valuesCarried false f.ctxUser = true)
+    (obs : KG.Spec.Gateway.Obs) (ho : KG.Spec.Gateway.obsOf r (.forwarded f) = some obs) :
+    KG.Spec.Gateway.judgeStages env s σ r obs = [] := by
+  obtain ⟨up, x, n, g, recv, ctx, hparse, _, hx, hserve, hpop, hid, hfeq, _⟩ := arrive_forwarded h
+  obtain ⟨hb, hroute, hacq, hpopeq⟩ := dispatch_done hx
+  obtain ⟨hri, hip, hres, hd, hau, h1, himp⟩ := bound_some hb
+  obtain ⟨_, hcl⟩ := resolve_some hres
+  have hcwf : ClusterWF x.b.cl := hwf _ (List.mem_of_getElem? hcl)
+  have hv := rawValid_of_parse hparse
+  have hctx : ctx = x.b.ctxUser := identity_ctx hid himp
+  subst hctx
+  simp only [KG.Spec.Gateway.obsOf, Option.some.injEq] at ho
+  subst ho
+  -- what the specification expects: forward as the context user
+  have hex : KG.Spec.Gateway.expectId env (some x.b.p) r = .forward x.b.ctxUser := by
+    have := KG.Props.C02.c02_forwarded_only_as_expected _ _ _ _ _ _ _ hid
+    unfold KG.Spec.Gateway.expectId
+    rw [hau]
+    exact this
+  -- C02's judge on the identity-bearing fields
+  have hjid : KG.Spec.Identity.judge x.b.cl.cfg.token false (.forward x.b.ctxUser) [f.identity] = [] := by
+    have hj := KG.Props.C02.c02_judge_model_exact x.b.cl.cfg.token r.lines (some x.b.requestor)
+      (env.authz (some x.b.p) x.b.requestor) false (by
+        intro id hid'
+        rw [KG.Props.C02.c02_forwarded_only_as_expected _ _ _ _ _ _ _ hid] at hid'
+        injection hid' with hid'
+        rw [← hid']
+        rw [hfeq] at hc
+        exact hc)
+    rw [KG.Props.C02.c02_forwarded_only_as_expected _ _ _ _ _ _ _ hid, hid] at hj
+    simp only [KG.Spec.Identity.judge, KG.Spec.Identity.upstreamOf, List.flatMap_cons, List.flatMap_nil, List.append_nil] at hj ⊢
+    rw [hfeq]
+    simp only [identityEntries]
+    rw [KG.Props.C02.c02_judge_identity_part]
+    exact hj
+  -- C01: first matching policy; C05/C06: admitted; C03: the endpoint
+  have hfirst := route_first hroute
+  obtain ⟨pol, hpol, _, _, _, hups, _⟩ := KG.Props.C01.c01_match_attributes_some _ _ _ _ _ hroute
+  have hups' : x.pk.upstreams = (if pol.upstreamSubset = [] then allEndpoints x.b.cl r else pol.upstreamSubset) := hups
+  have hadm : x.acq.admitted = true := by
+    have := ((KG.Props.C04.c04_forward_iff _).1 hserve).2.2.2.2.2.2.2.1
+    rw [scenario_acquire, hx] at this
+    exact this
+  obtain ⟨ha, _, _⟩ := tryAcquire_ok hacq
+  have hadmits : KG.Spec.Gateway.admits s σ x.b.cl.cfg.name (KG.Spec.Gateway.schemaOf x.b.cl x.pk.policy) r.now = true := by
+    have := acquire_demand hrel ha
+    rw [hadm] at this
+    unfold KG.Spec.Gateway.admits
+    exact this.symm
+  simp only [hadm, if_true] at hpopeq
+  have hpop1 : (Model.Endpoints.pop x.b.cl.ep.eps x.b.cl.ep.lb x.pk.upstreams).1 = .picked n g := by rw [← hpopeq]; exact hpop
+  obtain ⟨e, he, _, hmem, hrdy⟩ := KG.Lemmas.Endpoints.pop_sound hpop1
+  have helig := (ready_iff_eligible hcwf n).1 ⟨e, he, hrdy⟩
+  have hsrv : (Model.Endpoints.serverNames x.b.cl.cfg.servers).contains n = true := by
+    unfold KG.Spec.Gateway.eligible at helig
+    simp only [Bool.and_eq_true] at helig
+    exact helig.1.1
+  have hin : (KG.Spec.Gateway.upstreamsOf x.b.cl x.pk.policy).contains n = true := by
+    unfold KG.Spec.Gateway.upstreamsOf
+    rw [hpol]
+    simp only
+    rw [hups'] at hmem
+    by_cases hs : pol.upstreamSubset = []
+    · simp only [hs, if_true] at hmem ⊢
+      simp only [List.contains_eq_mem, decide_eq_true_eq, KG.Lemmas.Endpoints.mem_dedup]
+      simpa using hsrv
+    · simp only [hs, if_false] at hmem ⊢
+      simpa using hmem
+  have hn : f.endpoint.1 = n := by rw [hfeq]
+  simp only [KG.Spec.Gateway.judgeStages, hri, hip, Bool.false_eq_true, if_false, hres, hd, hex, hjid, hfirst, hn, hin, hsrv,
+    helig, hadmits, KG.Spec.Gateway.cls, Bool.not_false, if_true, List.map_nil, List.append_nil, decide_true]
 
 /-! ## non-vacuity: a concrete configuration and sequence on which every hypothesis above is met non-trivially
 
